@@ -35,13 +35,21 @@ CLAIMS = {
    note=NOTE_COMMON + 'The layout functions are hand-written (no C-to-Gallina translator); they are compared with the real m_mem_new on every size of the sweep.',
    technique='Coq proof (loop invariants over a work-list model) tied by extracted-model differential testing', design='7/C10'),
  'C05': dict(
-   level='translation_validation',
-   text='Executable Gallina model of map.c (probing bounded by size/2, doubling rehash with revert, back-shift deletion with the corrected '
-        'criterion, slot-order iterators) for an ARBITRARY hash function, run against the real map on adversarial key pools chosen with the '
-        'real hash (same home slot, last slots, consecutive homes, clusters > size/2, growth), plus an independent monitor of the iteration '
-        'clause. The Coq theorems (invariant / dictionary refinement) are not finished: this check is claimed as differential validation only.',
-   note=NOTE_COMMON + 'No theorem is claimed for C05 yet. Known finding D12 (double visit on iteration-with-removal across the table end) is listed in known_findings.txt.',
-   technique='extracted-model differential testing + trace monitor (proofs pending)', design='7/C05'),
+   text='Coq theorems over an executable model of map.c (probing bounded by size/2, doubling rehash with revert, back-shift deletion, '
+        'slot-order iterators) for an ARBITRARY hash function and every table size >= 4: representation invariant (distinct keys, every key '
+        'within the probe window of its home with no empty slot on its path, length field = live entries, a free slot exists) in every '
+        'reachable state under every op list (puts with growth, removals, clear, free, callback iteration with removals, iterator set/remove); '
+        'get/contains answer for exactly the live entries; put stores a new key / replaces a value / fails without effect; remove deletes '
+        'exactly the named entry (back-shift correctness); rehash keeps exactly the entries; len = number of distinct live keys; callback '
+        'iteration without mutation visits every live entry exactly once. The clause "iteration with removal visits every live entry exactly '
+        'once" is REFUTED on the model by a computed witness (C05_iterate_with_removal_refuted) = known finding D12 on the code. Tie: the '
+        'extracted model runs against the real map on adversarial key pools chosen with the real hash (same home slot, last slots, '
+        'consecutive homes, clusters > size/2, growth) + an independent monitor of the iteration clause.',
+   note=NOTE_COMMON + 'Not proved: clear/free empty the map completely (only invariant preservation is proved for them); iterator-object '
+        '(m_map_itr_*) enumeration order is covered by the differential runs and the iteration monitor only; allocation failure is not modelled '
+        '(rehash "revert" = the probe-window failure path). Known finding D12 is listed in known_findings.txt.',
+   technique='Coq proof (representation invariant by induction over op lists, refinement to the finite map represented, for every hash function) tied by extracted-model differential testing',
+   design='7/C05'),
 }
 CLAIMS['C06'] = dict(
    text='Coq theorems over a small-step model of thpool.c at the granularity of pthread operations, for EVERY schedule (arbitrary list of thread '
